@@ -921,8 +921,15 @@ void Lexer::lexIntegerOrFloatingConstant(SyntaxToken* tk)
             }
             while (yychar_ >= '0' && yychar_ <= '7');
 
-            lexIntegerOrImaginaryIntegerSuffix(tk, yytext_ - yytext);
-            return;
+            // A leading zero may also start a decimal floating constant
+            // (6.4.4.2): 01.5, 00e1, 019.5.
+            if (!(std::isdigit(yychar_)
+                    || yychar_ == '.'
+                    || yychar_ == 'e'
+                    || yychar_ == 'E')) {
+                lexIntegerOrImaginaryIntegerSuffix(tk, yytext_ - yytext);
+                return;
+            }
         }
     }
 
